@@ -20,7 +20,7 @@
 //   O cf <D integers>      total mobility forces then body forces (moment xyz, force xyz per body) after realize(Dynamics)
 //   P total_equals_serial <key> <max |total - independent serial sum over the currently ENABLED forces|> 0
 //        key = CalcForces.threads_after_topology.nonparallel_task   setNumberOfThreads(>=2) after realizeTopology on a
-//                                                                   subsystem without parallel forces (finding, see notes)
+//                                                                   subsystem without parallel forces (fixed finding, regression)
 //              CalcForces.mode_<M>.lost_update   configuration exposed to the pre-fix unlocked writes of task 0 (F7, regression)
 //              CalcForces.mode_<M>.total         otherwise
 // modes of the harness: '' generic mixes with enable/disable and thread-count histories;  'f7' the dedicated lost-update
@@ -125,8 +125,9 @@ static void emitRecord(int threads, bool after, const std::vector<Spec>& specs, 
     }
     for (int i = 0; i < D; ++i) { if (integral) out.i((long long)tot[i]); else out.d(tot[i]); }
     out.emit();
-    // executor threads actually in force: the one-thread downgrade happens inside realizeTopology only
-    int effThreads = hasPar ? threads : (after ? threads : 1);
+    // executor threads actually in force: a subsystem without parallel forces keeps one thread (downgrade in
+    // realizeTopology, and since /repo e709610d also in setNumberOfThreads once the non-parallel task is in use)
+    int effThreads = hasPar ? threads : 1;
     bool unsafeNPT = !hasPar && after && threads >= 2;
     bool exposed = effThreads >= 2 && mode != 0 && exposedForce;
     bool lateEnabledPar = false, stateDisabled = false, slow = false;
